@@ -219,10 +219,19 @@ func (r *Run) execute() int {
 	}
 	// second chance: an obligation left `unknown` (a timeout, possibly a load artefact) is asked again on its own with
 	// twice the time before it is reported; `sat` answers are never retried
+	nUnknown := 0
 	for _, u := range r.units {
 		for _, o := range u.Obls {
 			if o.Status == "unknown" && o.Batch == nil {
-				d2 := &Discharger{w: w, dir: dir, timeout: 2 * r.timeout, sem: make(chan struct{}, 24)}
+				nUnknown++
+			}
+		}
+	}
+	for _, u := range r.units {
+		for _, o := range u.Obls {
+			// (only when few are left and time remains: many unknowns mean a real change, not load)
+			if o.Status == "unknown" && o.Batch == nil && nUnknown <= 4 && time.Since(r.start) < 12*time.Minute {
+				d2 := &Discharger{w: w, dir: dir, timeout: 2 * r.timeout, sem: make(chan struct{}, 24), deadline: time.Now().Add(4 * time.Minute)}
 				clause := o.Clause
 				d2.discharge(o)
 				if o.Status == "discharged" {
